@@ -340,6 +340,25 @@ Definition is_builtin (n : string) (a : nat) : bool :=
   | _, _ => false
   end.
 
+(** the dispatch of [builtin]: the name is decoded once, into an enumeration *)
+Inductive bi :=
+| BCall | BNot | BRepeat | BThrow | BCatch | BFindall | BBagof | BSetof | BUnify | BUnifyOC | BCompare | BIs
+| BBetween | BCopyTerm | BAssertz | BAsserta | BRetract | BClause | BAbolish | BFunctor | BArg | BOther.
+
+Definition bi_of (name : string) : bi :=
+  match name with
+  | "call" => BCall | "\+" => BNot | "repeat" => BRepeat | "throw" => BThrow | "catch" => BCatch
+  | "findall" => BFindall | "bagof" => BBagof | "setof" => BSetof | "=" => BUnify
+  | "unify_with_occurs_check" => BUnifyOC | "compare" => BCompare | "is" => BIs | "between" => BBetween
+  | "copy_term" => BCopyTerm | "assertz" => BAssertz | "asserta" => BAsserta | "retract" => BRetract
+  | "clause" => BClause | "abolish" => BAbolish | "functor" => BFunctor | "arg" => BArg
+  | _ => BOther
+  end.
+
+(** a promise that only says "the model ran out of fuel here" *)
+Definition is_fuel_err (p : promise) : bool :=
+  match p_err p with Some EFuel => true | _ => false end.
+
 Section Machine.
 
 (** answers wanted from a nested Force (\+, findall): none recorded at top level *)
@@ -351,6 +370,8 @@ Fixpoint force (fuel : nat) (stack : list promise) (st : state) {struct fuel} : 
       match stack with
       | [] => (FFalse, st)
       | p :: rest =>
+          (* the model, not the code: a child that ran out of fuel ends the run before anything else is observed *)
+          if is_fuel_err p then (FOutOfFuel, st) else
           (* select on ctx.Done() *)
           match s_polls st with
           | Some O => (FError ECancelled, st)
@@ -612,8 +633,8 @@ with builtin (fuel : nat) (name : string) (args : list term) (k : cont) (e : env
   match fuel with
   | O => (PErr (EFuel), st)
   | S f =>
-      match name, args with
-      | "call", g :: extra =>
+      match bi_of name, args with
+      | BCall, g :: extra =>
           match extra with
           | [] => call_goal f g k e st
           | _ => match callable_pi e g with
@@ -621,30 +642,30 @@ with builtin (fuel : nat) (name : string) (args : list term) (k : cont) (e : env
                  | inl (fn, a0) => call_goal f (Cmp fn (a0 ++ extra)) k e st
                  end
           end
-      | "\+", [g] => delay [ThNegate g k e] st
-      | "repeat", [] =>
+      | BNot, [g] => delay [ThNegate g k e] st
+      | BRepeat, [] =>
           let '(id, st') := fresh_id st in
           (mkP id [ThApply k e] false None None None true None None, st')
-      | "throw", [b] =>
+      | BThrow, [b] =>
           match resolve e b with
           | Var _ => (PErr inst_err, st)
           | b' => let '(c, st') := renamed_copy e b' st in (PErr (EBall c), st')
           end
-      | "catch", [g; catcher; recovery] =>
+      | BCatch, [g; catcher; recovery] =>
           let '(id, st') := fresh_id st in
           (mkP id [ThCall g (KCatchExit id k) e] false None None None false (Some (HCatch catcher recovery k e)) None, st')
-      | "findall", [tmpl; g; inst] =>
+      | BFindall, [tmpl; g; inst] =>
           match check_partial_list e inst with
           | Some err => (PErr err, st)
           | None => delay [ThFindall tmpl g inst k e] st
           end
-      | "bagof", [tmpl; g; inst] => collection f false tmpl g inst k e st
-      | "setof", [tmpl; g; inst] => collection f true tmpl g inst k e st
-      | "=", [x; y] =>
+      | BBagof, [tmpl; g; inst] => collection f false tmpl g inst k e st
+      | BSetof, [tmpl; g; inst] => collection f true tmpl g inst k e st
+      | BUnify, [x; y] =>
           match unify e x y with UOk e' => apply_cont f k e' st | _ => (PBool false, st) end
-      | "unify_with_occurs_check", [x; y] =>
+      | BUnifyOC, [x; y] =>
           match unify_oc e x y with UOk e' => apply_cont f k e' st | _ => (PBool false, st) end
-      | "compare", [o; x; y] =>
+      | BCompare, [o; x; y] =>
           let go := fun (_ : unit) =>
             let r := match compare_t e x y with Lt => "<" | Eq => "=" | Gt => ">" end in
             match unify e (Atom r) o with UOk e' => apply_cont f k e' st | _ => (PBool false, st) end in
@@ -654,12 +675,12 @@ with builtin (fuel : nat) (name : string) (args : list term) (k : cont) (e : env
                       else (PErr (dom_err "order" (walk e o)), st)
           | _ => (PErr (type_err "atom" (walk e o)), st)
           end
-      | "is", [r; x] =>
+      | BIs, [r; x] =>
           match eval_term e x with
           | inl n => match unify e r (num_term n) with UOk e' => apply_cont f k e' st | _ => (PBool false, st) end
           | inr err => (PErr err, st)
           end
-      | "between", [lo; hi; v] =>
+      | BBetween, [lo; hi; v] =>
           match resolve e lo with
           | Int low =>
               match resolve e hi with
@@ -670,12 +691,12 @@ with builtin (fuel : nat) (name : string) (args : list term) (k : cont) (e : env
           | Var _ => (PErr inst_err, st)
           | r => (PErr (type_err "integer" (walk e r)), st)
           end
-      | "copy_term", [x; y] =>
+      | BCopyTerm, [x; y] =>
           let '(c, st') := renamed_copy e x st in
           match unify e c y with UOk e' => apply_cont f k e' st' | _ => (PBool false, st') end
-      | "assertz", [t] => assert_clause f false t k e st
-      | "asserta", [t] => assert_clause f true t k e st
-      | "retract", [t] =>
+      | BAssertz, [t] => assert_clause f false t k e st
+      | BAsserta, [t] => assert_clause f true t k e st
+      | BRetract, [t] =>
           match rulify e t with
           | Cmp ":-" [h; b] as t' =>
               match callable_pi e h with
@@ -693,7 +714,7 @@ with builtin (fuel : nat) (name : string) (args : list term) (k : cont) (e : env
               end
           | _ => (PErr (EPanic "rulify"), st)
           end
-      | "clause", [h; b] =>
+      | BClause, [h; b] =>
           match callable_pi e h with
           | inr err => (PErr err, st)
           | inl (fn, a0) =>
@@ -714,7 +735,7 @@ with builtin (fuel : nat) (name : string) (args : list term) (k : cont) (e : env
                   end
               end
           end
-      | "abolish", [pi] =>
+      | BAbolish, [pi] =>
           match resolve e pi with
           | Var _ => (PErr inst_err, st)
           | Cmp "/" [n; a] =>
@@ -736,7 +757,7 @@ with builtin (fuel : nat) (name : string) (args : list term) (k : cont) (e : env
               end
           | r => (PErr (type_err "predicate_indicator" (walk e r)), st)
           end
-      | "functor", [t; n; a] =>
+      | BFunctor, [t; n; a] =>
           match resolve e t with
           | Var v =>
               match resolve e a with
@@ -765,7 +786,7 @@ with builtin (fuel : nat) (name : string) (args : list term) (k : cont) (e : env
               match unify e (Cmp "" [n; a]) (Cmp "" [atomic; Int 0]) with
               | UOk e' => apply_cont f k e' st | _ => (PBool false, st) end
           end
-      | "arg", [n; t; a] =>
+      | BArg, [n; t; a] =>
           match resolve e t with
           | Var _ => (PErr inst_err, st)
           | Cmp _ xs =>
@@ -780,13 +801,13 @@ with builtin (fuel : nat) (name : string) (args : list term) (k : cont) (e : env
               end
           | _ => (PErr (type_err "compound" (walk e t)), st)
           end
-      | _, [x] =>
+      | BOther, [x] =>
           match type_check name (resolve e x) with
           | Some true => apply_cont f k e st
           | Some false => (PBool false, st)
           | None => (PErr (EPanic "no such builtin"), st)
           end
-      | _, [x; y] =>
+      | BOther, [x; y] =>
           match cmp_of name with
           | Some op =>
               match eval_term e x with
